@@ -6,7 +6,9 @@ use vh_harness::{install_silent_panic_hook, run_program};
 const STACK: usize = 256 * 1024 * 1024;
 
 fn usage() -> ExitCode {
-    eprintln!("usage: vh run <file> | vh batch <dir> [--jobs N] | vh batch-part <dir> <k> <N>");
+    eprintln!(
+        "usage: vh run <file> | vh batch <dir> [--jobs N] | vh batch-part <dir> <k> <N> | vh gen <family|all> <seed> <count> <outdir>"
+    );
     ExitCode::from(2)
 }
 
@@ -101,6 +103,20 @@ fn main() -> ExitCode {
                 }
             }
             if ok { ExitCode::SUCCESS } else { ExitCode::FAILURE }
+        }
+        Some("gen") if args.len() == 5 => {
+            let (Ok(seed), Ok(count)) = (args[2].parse::<u64>(), args[3].parse::<u64>()) else {
+                return usage();
+            };
+            let family = args[1].clone();
+            let outdir = PathBuf::from(&args[4]);
+            on_big_stack(move || match vh_harness::generate::generate(&family, seed, count, &outdir) {
+                Ok(()) => ExitCode::SUCCESS,
+                Err(e) => {
+                    eprintln!("vh: {e}");
+                    ExitCode::FAILURE
+                }
+            })
         }
         Some("batch-part") if args.len() == 4 => {
             let (Ok(k), Ok(n)) = (args[2].parse::<usize>(), args[3].parse::<usize>()) else {
